@@ -1,6 +1,6 @@
 (* C08: composition — the reader's construction against [describe] (Formats/PlyRead.v), up to whole files. *)
 From PF Require Import Base.Bytes Base.BytesProofs Base.BytesMore Formats.PlyRead Formats.PlyReadSpec Formats.PlyReadProofs.
-From Coq Require Import String ZifyN ZifyNat ZifyBool.
+From Coq Require Import String Ascii DecimalString DecimalN DecimalPos ZifyN ZifyNat ZifyBool.
 Open Scope list_scope.
 Open Scope N_scope.
 Local Notation length := List.length.
@@ -424,3 +424,219 @@ Qed.
 
 Lemma default_groups_wf : wf_groups default_groups.
 Proof. unfold wf_groups, default_groups, group_wf. repeat constructor; cbn; try discriminate; intros; try discriminate; reflexivity. Qed.
+(* ================= from readers and rows to mesh attributes ================= *)
+Lemma mapR_ext_in {A B} (f g : A -> result B) l : (forall x, In x l -> f x = g x) -> mapR f l = mapR g l.
+Proof.
+  induction l as [|a l IH]; intros H; [reflexivity|]. rewrite !mapR_cons, (H a (or_introl eq_refl)), IH; [reflexivity|].
+  intros x Ix. apply H. right. exact Ix.
+Qed.
+Lemma mapR_ok_all {A B} (f : A -> result B) l : (forall x, In x l -> exists y, f x = Ok y) -> exists ys, mapR f l = Ok ys.
+Proof.
+  induction l as [|a l IH]; intros H; [exists []; reflexivity|].
+  destruct (H a (or_introl eq_refl)) as [y Hy]. destruct IH as [ys Hys]; [intros x Ix; apply H; right; exact Ix|].
+  exists (y :: ys). rewrite mapR_cons, Hy, Hys. reflexivity.
+Qed.
+
+Lemma column_spec (F : built -> list N -> result (list N)) bs : forall recs rows,
+  mapR (fun rec => mapR (fun b => F b rec) bs) recs = Ok rows ->
+  forall j b, nth_error bs j = Some b -> mapR (F b) recs = Ok (column rows j).
+Proof.
+  induction recs as [|rec recs IH]; intros rows M j b Nb.
+  - injection M as <-. reflexivity.
+  - rewrite mapR_cons in M. destruct (mapR (fun b0 => F b0 rec) bs) as [row|] eqn:Mr; [|discriminate].
+    cbn [rbind] in M. destruct (mapR (fun rec0 => mapR (fun b0 => F b0 rec0) bs) recs) as [rows'|] eqn:Mrs; [|discriminate].
+    cbn [rbind] in M. injection M as <-.
+    destruct (mapR_nth _ _ _ _ _ Mr Nb) as [y [Ny Fy]].
+    rewrite mapR_cons, Fy, (IH rows' eq_refl j b Nb). cbn [rbind]. unfold column. cbn [map]. 
+    rewrite (nth_error_nth row j [] Ny). reflexivity.
+Qed.
+
+Lemma attrs_agree f (ps : vprops) bsfull recs rows :
+  mapR (fun rec => mapR (fun b => row_of f ps b rec) bsfull) recs = Ok rows ->
+  Forall (record_ok ps) recs ->
+  forall suffix sp, Forall2 (agrees f ps) suffix sp ->
+  forall j l, (forall i b, nth_error suffix i = Some b -> nth_error bsfull (j + i) = Some b) ->
+  fold_left (spec_step recs) sp (Ok l) = Ok (update_mesh suffix j rows l).
+Proof.
+  intros M R. induction 1 as [|b [name [[ms cols] t]] suffix sp [A [_ [Ln V]]] F IH]; intros j l Sub; [reflexivity|].
+  cbn [fold_left update_mesh]. unfold spec_step at 2. cbn [rbind].
+  assert (D : mapR (value_row true t cols) recs = Ok (column rows j)).
+  { rewrite <- (column_spec (row_of f ps) bsfull recs rows M j b).
+    - apply mapR_ext_in. intros rec Ir. rewrite Forall_forall in R. destruct (V rec (R rec Ir)) as [v [V1 V2]]. congruence.
+    - specialize (Sub 0%nat b eq_refl). rewrite Nat.add_0_r in Sub. exact Sub. }
+  rewrite D. cbn [rbind]. rewrite Ln, A. apply IH.
+  intros i b' Hi. specialize (Sub (S i) b' Hi). replace (S j + i)%nat with (j + S i)%nat by lia. exact Sub.
+Qed.
+
+Lemma rows_exist f (ps : vprops) bs sp recs : Forall2 (agrees f ps) bs sp -> Forall (record_ok ps) recs ->
+  exists rows, mapR (fun rec => mapR (fun b => row_of f ps b rec) bs) recs = Ok rows.
+Proof.
+  intros F R. apply mapR_ok_all. intros rec Ir. rewrite Forall_forall in R. specialize (R rec Ir).
+  apply mapR_ok_all. intros b Ib. clear - F Ib R.
+  induction F as [|b0 [name [[ms cols] t]] bs sp [_ [_ [_ V]]] F IH]; [destruct Ib|].
+  destruct Ib as [<-|Ib]; [|apply IH, Ib]. destruct (V rec R) as [v [V1 _]]. eauto.
+Qed.
+
+(* ================= point clouds, after the header ================= *)
+Lemma all_scalar_scalars (ps : vprops) : all_scalar (scalars ps) = true.
+Proof. induction ps as [|[t n] ps IH]; [reflexivity|exact IH]. Qed.
+
+Definition pointcloud_ok (a : absfile) : Prop :=
+  a_fprops a = None /\ a_faces a = [] /\ a_vprops a <> [] /\ NoDup (names (a_vprops a)) /\ supported (a_vprops a) /\
+  Forall (record_ok (a_vprops a)) (a_verts a) /\
+  Forall (raw_free (a_fmt a)) (spec_entries default_groups (a_vprops a)).
+
+Theorem read_body_points_proof : forall a, pointcloud_ok a ->
+  read_body default_groups true (header_of a) (enc_body a) = describe a /\ exists m, describe a = Ok m.
+Proof.
+  intros [fm ps verts fp faces] [Hfp [Hfa [NE [ND [S [R Raw]]]]]]. cbn [a_fprops a_faces a_vprops a_verts a_fmt] in *. subst fp faces.
+  destruct (build_readers_agree fm default_groups ps ND S default_groups_wf Raw) as [bs [B F]].
+  destruct (rows_exist fm ps bs _ verts F R) as [rows M].
+  pose proof (attrs_agree fm ps bs verts rows M R bs _ F 0%nat [] (fun i b H => H)) as D.
+  rewrite <- describe_attrs_entries in D.
+  assert (Hd : describe {| a_fmt := fm; a_vprops := ps; a_verts := verts; a_fprops := None; a_faces := [] |} =
+               Ok {| m_topo := TPoint; m_idx := iota (length verts); m_attrs := update_mesh bs 0 rows [] |}).
+  { unfold describe. cbn [a_vprops a_verts a_fprops]. rewrite D. reflexivity. }
+  split; [|eexists; exact Hd]. rewrite Hd.
+  unfold read_body, header_of. cbn [a_fmt a_vprops a_verts a_fprops a_faces h_elems h_fmt].
+  simpl (find_last_elem "vertex" _ None). simpl (find_last_elem "face" _ None).
+  cbn [of_opt rbind e_props e_count]. fold (scalars ps). rewrite all_scalar_scalars. cbn [negb].
+  replace (Z.of_nat (length verts) <? 0)%Z with false by (symmetry; apply Z.ltb_ge; lia).
+  rewrite Nat2Z.id. unfold enc_body. cbn [a_fmt a_vprops a_verts a_faces map fprops_of a_fprops flat_map].
+  destruct fm; cbn [is_bin] in B; rewrite B; cbn [rbind].
+  - (* ascii *)
+    destruct (vertex_i_is_record_i_ascii_proof ps verts bs [] rows NE) as [Rd _].
+    { apply Forall_forall. intros rec Ir. rewrite Forall_forall in R. apply record_ok_length, R, Ir. }
+    { exact M. }
+    unfold encode_vertices_ascii in Rd. unfold scalars at 1. rewrite map_length. rewrite Rd. cbn [rbind].
+    reflexivity.
+  - destruct (vertex_i_is_record_i_bin_proof LEnd ps verts bs [] rows R M) as [Rd _].
+    unfold encode_vertices_bin in Rd. rewrite Rd. cbn [rbind]. reflexivity.
+  - destruct (vertex_i_is_record_i_bin_proof BEnd ps verts bs [] rows R M) as [Rd _].
+    unfold encode_vertices_bin in Rd. rewrite Rd. cbn [rbind]. reflexivity.
+Qed.
+
+(* ================= the header parser on the canonical header text ================= *)
+Lemma parse_dec_show c : (0 <= c)%Z -> parse_dec (show_udec (Z.to_N c)) = Some c.
+Proof.
+  intros H. unfold show_udec. set (n := Z.to_N c).
+  assert (NN : N.to_uint n <> Decimal.Nil).
+  { destruct n; [discriminate|]. apply DecimalPos.Unsigned.to_uint_nonnil. }
+  assert (E : parse_dec (NilZero.string_of_uint (N.to_uint n)) =
+              option_map Z.of_N (parse_udec (NilZero.string_of_uint (N.to_uint n)))).
+  { unfold NilZero.string_of_uint. destruct (N.to_uint n); try congruence; reflexivity. }
+  rewrite E. unfold parse_udec. rewrite (NilZero.usu _ NN). cbn [option_map].
+  rewrite DecimalN.Unsigned.of_to. unfold n. rewrite Z2N.id by exact H. reflexivity.
+Qed.
+
+Definition prop_good (p : prop) : Prop := match p with PList _ _ n => lower n = n | PScalar _ _ => True end.
+Definition elem_good (e : element) : Prop :=
+  lower (e_name e) = e_name e /\ (0 <= e_count e)%Z /\ Forall prop_good (e_props e).
+
+Lemma parse_sty_name t : parse_sty (sty_name t) = Ok t.
+Proof. destruct t; reflexivity. Qed.
+Lemma sty_name_not_list t : seqb (lower (sty_name t)) "list" = false.
+Proof. destruct t; reflexivity. Qed.
+
+Lemma hstep_prop_line p e es cm : prop_good p ->
+  is_end (prop_line p) = false /\
+  hstep (prop_line p) {| hs_elems := e :: es; hs_comments := cm |} =
+  Ok {| hs_elems := {| e_name := e_name e; e_count := e_count e; e_props := p :: e_props e |} :: es; hs_comments := cm |}.
+Proof.
+  intros G. destruct p as [t n|ct lt n]; cbn [prop_line].
+  - split; [reflexivity|]. unfold hstep. 
+    change (seqb "property" "comment") with false. change (seqb "property" "element") with false.
+    change (seqb "property" "property") with true. cbv iota.
+    unfold parse_property. rewrite sty_name_not_list, parse_sty_name. reflexivity.
+  - split; [reflexivity|]. unfold hstep.
+    change (seqb "property" "comment") with false. change (seqb "property" "element") with false.
+    change (seqb "property" "property") with true. cbv iota.
+    unfold parse_property. change (seqb (lower "list") "list") with true. cbv iota.
+    rewrite !parse_sty_name. cbn [rbind]. cbn [prop_good] in G. rewrite G. reflexivity.
+Qed.
+
+Lemma hloop_props : forall props rest e es cm, Forall prop_good props ->
+  hloop (map prop_line props ++ rest) {| hs_elems := e :: es; hs_comments := cm |} =
+  hloop rest {| hs_elems := {| e_name := e_name e; e_count := e_count e; e_props := rev props ++ e_props e |} :: es;
+               hs_comments := cm |}.
+Proof.
+  induction props as [|p props IH]; intros rest e es cm G.
+  - cbn [map app rev]. destruct e; reflexivity.
+  - inversion G as [|? ? Gp G']; subst. cbn [map app hloop].
+    destruct (hstep_prop_line p e es cm Gp) as [E1 E2]. rewrite E1, E2. cbn [rbind].
+    rewrite IH by exact G'. cbn [e_name e_count e_props rev]. rewrite <- app_assoc. reflexivity.
+Qed.
+
+Definition rev_props (e : element) : element := {| e_name := e_name e; e_count := e_count e; e_props := rev (e_props e) |}.
+
+Lemma hloop_elems : forall elems rest es cm, Forall elem_good elems ->
+  hloop (flat_map elem_lines elems ++ rest) {| hs_elems := es; hs_comments := cm |} =
+  hloop rest {| hs_elems := rev (map rev_props elems) ++ es; hs_comments := cm |}.
+Proof.
+  induction elems as [|e elems IH]; intros rest es cm G; [reflexivity|].
+  inversion G as [|? ? [Gn [Gc Gp]] G']; subst.
+  cbn [flat_map]. rewrite <- app_assoc. unfold elem_lines at 1. cbn [app hloop is_end].
+  unfold hstep. change (seqb "element" "comment") with false. change (seqb "element" "element") with true. cbv iota.
+  rewrite (parse_dec_show _ Gc). cbn [of_opt rbind hs_elems hs_comments]. rewrite Gn.
+  rewrite hloop_props by exact Gp. cbn [e_name e_count e_props]. rewrite app_nil_r.
+  rewrite IH by exact G'. cbn [map rev]. rewrite <- app_assoc. reflexivity.
+Qed.
+
+Lemma finish_rev_props e : finish_elem (rev_props e) = e.
+Proof. destruct e. unfold finish_elem, rev_props. cbn. rewrite rev_involutive. reflexivity. Qed.
+
+(* the parser recovers exactly the declared format, elements and properties from the canonical header text *)
+Theorem parse_render_header_proof : forall h, Forall elem_good (h_elems h) -> h_comments h = [] ->
+  parse_header (render_header h) = Ok h.
+Proof.
+  intros [f elems cms] G C. cbn [h_elems h_comments] in *. subst cms.
+  unfold render_header. cbn [h_fmt h_elems]. unfold parse_header.
+  change (seqb "ply" "ply") with true. cbn [negb]. cbn [app skip_blank].
+  assert (Pf : parse_format ["format"%string; fmt_name f; "1.0"%string] = Ok f) by (destruct f; reflexivity).
+  rewrite Pf. cbn [rbind]. rewrite (hloop_elems elems [["end_header"%string]] [] [] G).
+  cbn [hloop is_end]. change (seqb "end_header" "end_header") with true. cbv iota. cbn [rbind hs_elems hs_comments rev].
+  rewrite app_nil_r, map_rev, rev_involutive, map_map.
+  rewrite (map_ext _ (fun e => e) finish_rev_props), map_id. reflexivity.
+Qed.
+
+(* ================= whole point-cloud files ================= *)
+Lemma header_of_points_good a : a_fprops a = None -> Forall elem_good (h_elems (header_of a)).
+Proof.
+  intros H. unfold header_of. rewrite H. cbn [h_elems]. constructor; [|constructor].
+  unfold elem_good. cbn [e_name e_count e_props]. repeat split; [lia|].
+  apply Forall_forall. intros p Ip. apply in_map_iff in Ip. destruct Ip as [[t n] [<- _]]. exact I.
+Qed.
+
+Theorem read_mesh_points_proof : forall a, pointcloud_ok a ->
+  read_mesh (encode a) = describe a /\ exists m, describe a = Ok m.
+Proof.
+  intros a P. unfold read_mesh, encode. cbn [pf_header pf_body].
+  rewrite parse_render_header_proof; [|apply header_of_points_good, P|reflexivity].
+  cbn [rbind]. apply read_body_points_proof, P.
+Qed.
+
+(* ... and with comment / obj_info / blank lines anywhere in the header *)
+Lemma read_body_ext gs u h1 h2 b : h_fmt h1 = h_fmt h2 -> h_elems h1 = h_elems h2 -> read_body gs u h1 b = read_body gs u h2 b.
+Proof. destruct h1 as [f1 e1 c1], h2 as [f2 e2 c2]. cbn [h_fmt h_elems]. intros -> ->. reflexivity. Qed.
+
+Lemma read_mesh_ext l1 l2 b : strip_comments (parse_header l1) = strip_comments (parse_header l2) ->
+  read_mesh {| pf_header := l1; pf_body := b |} = read_mesh {| pf_header := l2; pf_body := b |}.
+Proof.
+  unfold read_mesh. cbn [pf_header pf_body]. destruct (parse_header l1) as [h1|e1], (parse_header l2) as [h2|e2];
+    cbn [strip_comments rbind]; intros H; try discriminate H.
+  - injection H as Hf He. apply read_body_ext; assumption.
+  - congruence.
+Qed.
+
+Definition header_body (h : header) : list (list string) := flat_map elem_lines (h_elems h) ++ [["end_header"%string]].
+
+Theorem read_mesh_points_noisy_proof : forall a noisy, pointcloud_ok a ->
+  with_noise (header_body (header_of a)) noisy ->
+  read_mesh {| pf_header := ["ply"%string] :: ["format"%string; fmt_name (a_fmt a); "1.0"%string] :: noisy; pf_body := enc_body a |}
+  = describe a.
+Proof.
+  intros a noisy P W.
+  rewrite (read_mesh_ext _ (render_header (header_of a)) (enc_body a)).
+  - apply (read_mesh_points_proof a P).
+  - unfold render_header. apply header_noise_ignored_proof; [discriminate|exact W].
+Qed.
